@@ -252,7 +252,11 @@ def handle : Drv.Handler
     match counts with
     | [sc, uc] =>
       let wantU := reach.length
-      let wantS := M.initB.length + (reach.map fun s => (M.succB s).length).sum
+      -- every reachable state is expanded once, an initial state once per occurrence in `init_states`
+      let ib := M.initB
+      let extra := ib.zipIdx.filter fun (s, i) => (ib.take i).contains s
+      let wantS := ib.length + (reach.map fun s => (M.succB s).length).sum
+                     + (extra.map fun (s, _) => (M.succB s).length).sum
       pure (if uc != wantU then s!"unique-count {uc} != reachable {wantU}"
         else if sc != wantS then s!"state-count {sc} != {wantS}" else "ok")
     | _ => pure "ok"
